@@ -6,6 +6,7 @@ callbacks and devices, any rate limit and callback count).
 -/
 import XknxVerif.Lemmas.TelegramQueueLive
 import XknxVerif.Lemmas.TelegramQueueLog
+import XknxVerif.Lemmas.TelegramQueuePost
 
 namespace XknxVerif.Props.C33
 open XknxVerif.TelegramQueue XknxVerif.Monitor
@@ -333,13 +334,49 @@ theorem internal_skips_interface (s : State) (t : Tg) (rest : List Tg) (s' : Sta
   injection h with h; subst h
   exact ⟨rfl, rfl, rfl⟩
 
-/-- **… but are still processed.** (`_partial`: state-level form.)  While the device or a callback
-of the telegram in the limiter is still to be run, neither `task_done()` is accepted; the only ways
-forward are the device run and the callback runs (a raising device ends the processing).
-The full trace-level statement — between `go k` of an internal telegram and its `task_done()` the
-device (if any) was reached and, unless it raised, every callback was invoked — follows from this
-by an until-argument that is not written out. -/
-theorem internal_processed_partial (s : State) (t : Tg) (p : Bool) (cbs : List Nat)
+theorem ncb_run : ∀ (tr : List Obs) (s0 s1 : State), run? step? s0 tr = some s1 → s1.ncb = s0.ncb := by
+  intro tr
+  induction tr with
+  | nil => intro s0 s1 h; simp at h; subst h; rfl
+  | cons o tr ih =>
+    intro s0 s1 h
+    rw [run?_cons] at h
+    cases ho : step? s0 o with
+    | none => simp [ho] at h
+    | some s2 =>
+      simp only [ho, Option.bind_some] at h
+      rw [ih s2 s1 h, (logs_step ho).2.2.2]
+
+/-- **… but are still processed by devices and callbacks.**  From the moment the limiter takes an
+internal-address telegram `t` (`go`) until it has left its processing (in particular before either
+`task_done()` for it is accepted, see `post_blocks_task_done`): the device listening on the address
+(if any) was reached, and — unless that device raised — every one of the `ncb` callbacks was invoked
+with the telegram.  (`b` arbitrary: the consumer may do anything meanwhile.) -/
+theorem internal_is_processed (rate ncb : Nat) (a b : List Obs) (t : Tg) (rest : List Tg) (s1 s3 : State)
+    (ha : Accepted rate ncb a s1) (hl : s1.lim = .idle) (hq : s1.outQ = t :: rest) (hk : t.kind = .int)
+    (h : run? step? s1 ([.go (some t.k)] ++ b) = some s3) (hfin : ∀ p c, s3.lim ≠ .post t p c) :
+    (t.dev = true → ∃ e, Obs.proc t.k e ∈ b) ∧
+    ((∀ e, Obs.proc t.k e ∈ b → e = false) → ∀ j, j < ncb → Obs.cb t.k j ∈ b) := by
+  obtain ⟨s2, h2, h3⟩ := run?_append_some step? h
+  rw [run?_singleton] at h2
+  have hn : s1.ncb = ncb := by
+    have := ncb_run a (init rate ncb) s1 ha
+    simpa [init] using this
+  have hl2 := (internal_skips_interface s1 t rest s2 hl hq hk h2).1
+  rw [hn] at hl2
+  unfold settlePost at hl2
+  split at hl2
+  · rename_i hc
+    simp only [Bool.and_eq_true, Bool.not_eq_true', List.isEmpty_iff] at hc
+    refine ⟨fun hd => by rw [hc.1] at hd; simp at hd, fun _ j hj => ?_⟩
+    have : j ∈ cbList ncb := by simp [cbList, hj]
+    rw [hc.2] at this; simp at this
+  · have := post_completes t b s2 s3 t.dev (cbList ncb) hl2 h3 hfin
+    exact ⟨this.1, fun hall j hj => this.2 hall j (by simp [cbList, hj])⟩
+
+/-- While the device or a callback of the telegram in the limiter is still to be run, neither
+`task_done()` nor `stopped` is accepted. -/
+theorem post_blocks_task_done (s : State) (t : Tg) (p : Bool) (cbs : List Nat)
     (hl : s.lim = .post t p cbs) : step? s .dml = none ∧ step? s .dol = none ∧ step? s .stopped = none := by
   simp [step?, hl]
 
